@@ -452,7 +452,7 @@ def count_lines(path):
 
 # ------------------------------------------------------------------ pipelines
 def exec_and_validate(chk, binpath, sub, tv_module, cases_path, jvms=8, what="history", env=None,
-                      exec_args=None):
+                      exec_args=None, as_notes=False):
     """cases --(real code)--> trace --(TLC)--> verdicts.  Registers a
     violation (with a replay file holding the case) per rejected record."""
     trace = cases_path + ".trace"
@@ -475,6 +475,10 @@ def exec_and_validate(chk, binpath, sub, tv_module, cases_path, jvms=8, what="hi
                 pass
     for b in bad:
         case = json.loads(cases[str(b["key"]).split("#")[0]])
+        if as_notes:
+            # behaviour beyond the property's statement: reported, never an alarm
+            chk.note("extra-coverage: %s %s rejected by %s: %s" % (what, b["key"], tv_module, json.dumps(b["info"])[:300]))
+            continue
         chk.violation(b["key"], {"sub": sub, "tv": tv_module, "case": case, "info": b["info"],
                                  "exec_args": exec_args or []},
                       what="%s %s rejected by %s: %s" % (what, b["key"], tv_module, json.dumps(b["info"])[:400]))
